@@ -141,6 +141,8 @@ func vDeclared(css string) map[pr.KnownProp]pr.DeclaredValue {
 }
 
 func vShorthandsVsLonghands() (int, []string) {
+	logger.WarningLogger.SetOutput(io.Discard)
+	defer logger.WarningLogger.SetOutput(os.Stdout)
 	n, fails := 0, []string{}
 	fail := func(f string, a ...interface{}) {
 		if len(fails) < 6 {
@@ -355,6 +357,51 @@ func vShorthandsVsLonghands() (int, []string) {
 			}
 		}
 	}
+	// css-backgrounds-3 §6.7: border-image = <source> || <slice> [ / <width> | / <width>? / <outset> ]? || <repeat>:
+	// every width list of one to three values over a length, a percentage, auto and a number, with two slices,
+	// no / one / two outsets and no / one / two repeats, against the five longhands
+	var widthLists []string
+	wv := []string{"1px", "10%", "auto", "2"}
+	for _, a := range wv {
+		widthLists = append(widthLists, a)
+		for _, b := range wv {
+			widthLists = append(widthLists, a+" "+b)
+			for _, c := range wv {
+				widthLists = append(widthLists, a+" "+b+" "+c)
+			}
+		}
+	}
+	for _, widths := range widthLists {
+		for _, slice := range []string{"10", "10 20% fill"} {
+			for _, outset := range []string{"", "1px", "1 2px"} {
+				for _, repeat := range []string{"", "round", "stretch round"} {
+					text := "border-image: url(b.png) " + slice + " / " + widths
+					longs := "border-image-source: url(b.png); border-image-slice: " + slice + "; border-image-width: " + widths
+					nlongs := 3
+					if outset != "" {
+						text += " / " + outset
+						longs += "; border-image-outset: " + outset
+						nlongs++
+					}
+					if repeat != "" {
+						text += " " + repeat
+						longs += "; border-image-repeat: " + repeat
+						nlongs++
+					}
+					n++
+					got, want := vDeclared(text), vDeclared(longs)
+					if len(want) != nlongs {
+						fail("%q: %d longhands understood, expected %d", longs, len(want), nlongs)
+					}
+					for k, w := range want {
+						if g, ok := got[k]; !ok || !reflect.DeepEqual(g, w) {
+							fail("%q: %s is %v, the longhand gives %v", text, k, g, w)
+						}
+					}
+				}
+			}
+		}
+	}
 	// spelling: keywords, units and property names are ASCII case-insensitive (CSS Syntax 3 §4, css-values §3.1):
 	// the upper-case spelling of a declaration assigns what the lower-case spelling assigns, and something
 	for _, text := range []string{
@@ -377,7 +424,7 @@ func vShorthandsVsLonghands() (int, []string) {
 	return n, fails
 }
 
-//@ bounded vShorthandsVsLonghands 8 shorthands x every subset and order of their components x 3 spellings, 192 one- to three-layer background shorthands, border-radius with 1-4 horizontal and 0-4 vertical radii and three four-sides shorthands with 1-4 values, against the equivalent longhand declarations; 9 flex shorthands against their longhands; 27 declarations in upper case against their lower-case spelling
+//@ bounded vShorthandsVsLonghands 8 shorthands x every subset and order of their components x 3 spellings, 192 one- to three-layer background shorthands, border-radius with 1-4 horizontal and 0-4 vertical radii and three four-sides shorthands with 1-4 values, against the equivalent longhand declarations; 9 flex shorthands and 1 512 border-image shorthands (every width list of 1-3 values over a length, a percentage, auto and a number) against their longhands; 27 declarations in upper case against their lower-case spelling
 //@   props C08
 
 // border-radius: the index reads of the two radius lists are safe (each list holds exactly four values
